@@ -397,3 +397,18 @@ fn c10_chk_thin_to_thick() {
     kani::cover!(true, "END");
     core::mem::forget(t);
 }
+
+// @h props=C04,C10,C01 fuc=ThinArc::with_arc_mut,ThinArc::strong_count note="callback replaces the Arc: counts stay accurate on BOTH allocations (old: one owner fewer; the ThinArc now reports the replacement's count)"
+gproof! { fn c04_thin_with_arc_mut_replace_counts() {
+    let n = any_count();
+    kani::assume(n > 1);
+    let (mut t, len, h, buf) = mk_thin_u32(n);
+    let c0 = tcw(&t);
+    let other: ThinArc<u16, u32> = ThinArc::from_header_and_slice(9u16, &[7u32]);
+    let c1 = tcw(&other);
+    t.with_arc_mut(|a| { *a = Arc::protected_from_thin(other); });
+    assert!(rd(c0) == n - 1 && rd(c1) == 1);
+    assert!(tcw(&t) == c1 && ThinArc::strong_count(&t) == 1);
+    assert!(vrt::ga(2) && vrt::gd(0));
+    core::mem::forget(t);
+} }
